@@ -367,4 +367,25 @@ class RecordingStore:
         return {"edits": sum(1 for i in ids if i not in self.noop_ids), "clamps": 0}
 
     def __getattr__(self, n):
+        if n == "export_state" and not self.__dict__.get("offers_export"):
+            raise AttributeError(n)
         return getattr(self.inner, n)
+
+
+class ExportingStore(RecordingStore):
+    """a duck-typed store with the optional hooks of richer back ends: it is falsy while it holds nothing
+    (defines __len__) and offers export_state(), which may raise (a store error inside the snapshot writer)"""
+
+    def __init__(self, *a, export_raises: bool = False, **k):
+        super().__init__(*a, **k)
+        self.export_raises = export_raises
+        self.export_calls = 0
+
+    def __len__(self):
+        return len(self.applied)
+
+    def export_state(self):
+        self.export_calls += 1
+        if self.export_raises:
+            raise self.exc("verif: store export fault")
+        return {"weights": [{"target_kind": "node", "target_id": i, "attr": "weight", "value": float(w)} for i, w in sorted(self.weights.items())]}
